@@ -828,7 +828,9 @@ class Ctx:
             return True
         if a2.is_nan() or b2.is_nan():
             return False
-        return self.decide(cmp_term('Eq', a2, b2)) is True
+        if self.decide(cmp_term('Eq', a2, b2)) is True:
+            return True
+        return _mask_equal(a2, b2)
 
     def assume(self, b, value=True):
         """Add the fact b == value; refine symbol ranges where the fact is sym <op> const.
@@ -1066,6 +1068,70 @@ def _ratio(d, fd):
         elif s != r:
             return None
     return s
+
+
+def _mask_expr(p, width_mask, leaves):
+    """parse p as a bitwise expression over opaque leaves: returns a function env->bool-per-leaf evaluation tree, or None"""
+    p = as_poly(p)
+    c = p.const_value()
+    if c is not None:
+        if c == 0:
+            return ('const', False)
+        if c == width_mask:
+            return ('const', True)
+        return None
+    # NOT x  ==  width_mask - x
+    if p.t.get((), Fr(0)) == width_mask and len(p.t) == 2:
+        rest = Poly({m: -cf for m, cf in p.t.items() if m != ()})
+        inner = _mask_expr(rest, width_mask, leaves)
+        if inner is not None:
+            return ('not', inner)
+        return None
+    a = p.as_single_atom()
+    if a is None:
+        return None
+    if a[0] in ('bitand', 'bitor', 'bitxor'):
+        l = _mask_expr(a[1], width_mask, leaves)
+        r = _mask_expr(a[2], width_mask, leaves)
+        if l is None or r is None:
+            return None
+        return (a[0], l, r)
+    if a not in leaves:
+        leaves.append(a)
+    return ('leaf', leaves.index(a))
+
+
+def _mask_eval(e, env):
+    k = e[0]
+    if k == 'const':
+        return e[1]
+    if k == 'leaf':
+        return env[e[1]]
+    if k == 'not':
+        return not _mask_eval(e[1], env)
+    l, r = _mask_eval(e[1], env), _mask_eval(e[2], env)
+    return (l and r) if k == 'bitand' else ((l or r) if k == 'bitor' else (l != r))
+
+
+def _mask_equal(a, b):
+    """two bitwise expressions (and/or/xor/not over opaque leaves) are equal if they agree as Boolean functions of the
+    leaves (bitwise operators act per bit)"""
+    for width_mask in (Fr(65535), Fr(255), Fr(4294967295)):
+        leaves = []
+        ea = _mask_expr(a, width_mask, leaves)
+        eb = _mask_expr(b, width_mask, leaves)
+        if ea is None or eb is None or len(leaves) > 8:
+            continue
+        if not any(x[0] in ('bitand', 'bitor', 'bitxor', 'not') for x in (ea, eb)):
+            continue
+        ok = True
+        for bits in itertools.product((False, True), repeat=len(leaves)):
+            if _mask_eval(ea, bits) != _mask_eval(eb, bits):
+                ok = False
+                break
+        if ok:
+            return True
+    return False
 
 
 def _expand_idiv(p, ctx):
